@@ -120,4 +120,9 @@ def step (s : St) : Act → Option St
         some ({ s with result := some s.batch, exn := none, flog := s.flog ++ [(s.batch, Outcome.ok s.batch)] }.at t .b4)
     | _ => none
 
+/-- run a list of actions (used by the drivers and the non-vacuity examples) -/
+def runActs (s : St) : List Act → Option St
+  | [] => some s
+  | a :: t => (step s a).bind (fun s' => runActs s' t)
+
 end Runner
